@@ -144,6 +144,31 @@ func runC05(c *vc.Ctx) error {
 	}
 	defer debug.SetGCPercent(debug.SetGCPercent(gcp))
 	defer debug.SetMemoryLimit(debug.SetMemoryLimit(4 << 30))
+	// watchdog: a reader that blocks forever (e.g. on a file lock) must not hang the check
+	wdone := make(chan struct{})
+	defer close(wdone)
+	go func() {
+		last, idle := int64(-1), 0
+		t := time.NewTicker(30 * time.Second)
+		defer t.Stop()
+		for {
+			select {
+			case <-wdone:
+				return
+			case <-t.C:
+				if n := c.Ev.Evals(); n != last {
+					last, idle = n, 0
+				} else if idle++; idle >= 12 {
+					fmt.Printf("INCONCLUSIVE property=C05 watchdog: no reopen execution completed for 6 minutes (a WAL call blocks); no verdict\n")
+					if e.base != c.Scratch {
+						os.RemoveAll(e.base)
+					}
+					os.RemoveAll(c.Scratch)
+					os.Exit(2)
+				}
+			}
+		}
+	}()
 	installHook()
 	oldSeg := wal.SegmentSizeBytes
 	defer func() { wal.SegmentSizeBytes = oldSeg }()
